@@ -19,7 +19,7 @@ returns every entry for requeueing; each step of retire_extents poisons on error
 ensure_writable dominates every raw write / fsync; write_indeterminate is only set by the reviewed functions; the worker's
 error reaches force_flush's caller and flush_all. Not decided: the recovered state after a given fault sequence.
 """
-DECIDED = ['every flush round asks every worker, so a failing background batch cannot be missed (shared with C02.ack/force_flush)', "a scrubbed run is released with the sum of its members' own extent lengths", "no discarded storage error", "failure arms reach scrub / quarantine / poison and requeue all entries",
+DECIDED = ['first-error latches are never overwritten before they were examined / consumed (per-chunk, per-shard, per-batch)', 'every flush round asks every worker, so a failing background batch cannot be missed (shared with C02.ack/force_flush)', "a scrubbed run is released with the sum of its members' own extent lengths", "no discarded storage error", "failure arms reach scrub / quarantine / poison and requeue all entries",
            "poisoned device is unwritable", "errors propagate to flush()",
            'two-slot journal position: every journal writer records its slot; position advances only after write + fsync (shared with C04.position)',
            'every prepared write of a failed batch is requeued (whole drain, whole clean-up)',
@@ -446,13 +446,86 @@ def check_metadata_commit(ctx):
     ctx.check(len(par) == 1, inst, "PIN", b.path, "the slot is chosen by the parity of the new generation", None)
 
 
-def check_scrub(ctx):
+def check_error_latch(ctx, inst="C09.latch"):
+    """first-error latches (`let mut first_error: Option<FeoxError>`, filled as work items fail - directly or by a callee that is
+    handed `&mut first_error`): once an error may have been latched, no assignment may replace the latch before it was examined,
+    and a latch found to hold an error is never reassigned (the error is returned / handed on). A latch that is re-initialised per
+    chunk but only examined after the loop reports the last chunk's outcome: an I/O failure in an earlier chunk is swallowed,
+    flush() answers Ok and the failed records never reach the device."""
+    import re as _re
+    prog = ctx.prog
+    n_latches = 0
+    for b in prog.product_bodies():
+        if not ("storage::" in b.path or "core::store" in b.path):
+            continue
+        tr = A.tracer(b, transparent=False)
+        for l in range(b.argc + 1, len(b.locals)):
+            if not b.local_name(l) or not _re.match(r"^std::option::Option<error::FeoxError>$", b.local_ty(l) or ""):
+                continue
+            defs = list(b.defs.get(l, []))
+            if not defs:
+                continue
+
+            def is_some(d):
+                v = tr.node_value(d)
+                return v.k == "agg" and str(v.extra).endswith("Option::Some")
+            somes = [d for d in defs if is_some(d)]
+            # calls that are handed `&mut latch`
+            refs = {n.ev["dst"]["l"] for n in b.nodes if n.kind == "assign" and n.ev.get("rv") == "ref" and n.ev.get("mut") and n.ev["pl"]["l"] == l and not n.ev["pl"]["p"]}
+            byref = []
+            for n in b.calls():
+                for a_ in n.ev["args"]:
+                    x = R.op_local(a_)
+                    seen = 0
+                    while x is not None and x not in refs and seen < 4:
+                        ds = b.defs.get(x, [])
+                        nx = None
+                        if len(ds) == 1 and b.nodes[ds[0]].kind == "assign" and b.nodes[ds[0]].ev.get("rv") in ("use", "ref"):
+                            ev = b.nodes[ds[0]].ev
+                            nx = R.op_local(ev["a"]) if ev.get("rv") == "use" else (ev["pl"]["l"] if ev["pl"]["p"] == ["*"] else None)
+                        x = nx
+                        seen += 1
+                    if x in refs and not any(R.call_matches(n.ev, t) for t in ("Option::is_none", "Option::is_some", "Option::as_ref", "Option::take", "Option::is_some_and")):
+                        byref.append(n.id)
+            if not somes and not byref:
+                continue
+            n_latches += 1
+            owner = R.owner_fn(prog, b)
+            nm = b.local_name(l)
+            tests = [s_ for s_ in A.switches(b) if A.switch_info(b, s_).root.k == "local" and A.switch_info(b, s_).root.extra == l]
+            # after a Some-assignment the latch holds an error until its next assignment: the None edges of its tests are infeasible
+            none_edges = {(t, lab) for t in tests for lab, v in A.switch_info(b, t).edge_vals.items() if v == "None"}
+            for d in somes:
+                r, ps = A.reach(b, A.succs(b, d), blocked_edges=none_edges)
+                bad = [x for x in defs if x in r]
+                ctx.check(not bad, inst, "NEVER-AFTER", owner, "a latched error (`%s`) is never overwritten before it was consumed" % nm, b.where(d),
+                          None if not bad else {"overwritten_at": b.where(bad[0]), "witness": R.witness(b, ps, r.get(bad[0]))})
+            for c in byref:
+                r, ps = A.reach(b, A.succs(b, c), blocked_nodes=set(tests))
+                bad = [x for x in defs if x in r]
+                ctx.check(not bad, inst, "NEVER-AFTER", owner, "a latch handed to a callee (`&mut %s`) is examined before it is assigned again" % nm, b.where(c),
+                          None if not bad else {"overwritten_at": b.where(bad[0]), "witness": R.witness(b, ps, r.get(bad[0]))})
+            if byref:
+                ctx.check(bool(tests), inst, "anchor", owner, "the latch `%s` is examined" % nm, None)
+                for t in tests:
+                    info = A.switch_info(b, t)
+                    for lab, v in info.edge_vals.items():
+                        if v != "Some":
+                            continue
+                        r, ps = A.reach(b, edge_targets(b, t, lab))
+                        bad = [x for x in defs if x in r]
+                        ctx.check(not bad, inst, "NEVER-AFTER", owner, "a latch found to hold an error (`%s`) is not reassigned" % nm, b.where(t),
+                                  None if not bad else {"overwritten_at": b.where(bad[0])})
+    ctx.check(n_latches >= 6, inst, "anchor", "-", "first-error latches examined (>= 6, found %d)" % n_latches, None)
+
+
+def check_scrub(ctx, prefix="C09.contain"):
     from rules.common import check_scrub_release_clears_group
-    check_scrub_release_clears_group(ctx, "C09.contain/scrub-release")
+    check_scrub_release_clears_group(ctx, prefix + "/scrub-release")
     from rules.common import check_scrub_release_extent_sum
-    check_scrub_release_extent_sum(ctx, "C09.contain/scrub-release")
+    check_scrub_release_extent_sum(ctx, prefix + "/scrub-release")
     # release_allocations (allocation failure path): the reservation cleared is the one just released
-    inst = "C09.contain/release_allocations"
+    inst = prefix + "/release_allocations"
     b = ctx.fn("write_buffer::release_allocations", inst)
     if b is not None:
         rs = ctx.sites(b, R.call("FreeSpaceManager::release_sectors"), inst, exact=1)
@@ -492,6 +565,7 @@ def check_requeue(ctx):
 
 
 def check(ctx):
+    check_error_latch(ctx)
     check_requeue(ctx)
     check_journal_position(ctx)
     check_successor(ctx)
